@@ -7,6 +7,17 @@ from ckl.values import ValueString, ValueList, NULL
 
 import ckl.interpreter
 import ckl.parser
+from ckl.interpreter import show
+
+
+def read_line(prompt):
+    # a session that has closed its own standard output or input ends
+    try:
+        return input(prompt)
+    except ValueError:
+        if sys.stdout.closed or sys.stdin.closed:
+            raise EOFError() from None
+        raise
 
 
 def main():
@@ -31,16 +42,16 @@ def main():
             interpreter.interpret(script, os.path.basename(scriptfile))
 
     try:
-        line = input("> ")
+        line = read_line("> ")
         while line != "exit":
             try:
                 ckl.parser.parse_script(line, "{stdin}")
             except CklSyntaxError as e:
                 if e.msg.startswith("Unexpected end of input"):
-                    line += input("+ ")
+                    line += read_line("+ ")
                     continue
             except Exception:
-                line += input("+ ")
+                line += read_line("+ ")
                 continue
 
             if not line == ";":
@@ -49,15 +60,15 @@ def main():
                     if value.isReturn():
                         value = value.asReturn().value
                     if value != NULL:
-                        print(ckl.interpreter.render(value))
+                        show(ckl.interpreter.render(value))
                 except CklRuntimeError as e:
                     for errline in ckl.interpreter.render_error(e):
-                        print(errline)
+                        show(errline)
                 except CklSyntaxError as e:
-                    print(e.msg
-                          + ((" (Line " + str(e.pos) + ")") if e.pos else ""))
+                    show(e.msg
+                         + ((" (Line " + str(e.pos) + ")") if e.pos else ""))
 
-            line = input("> ")
+            line = read_line("> ")
     except EOFError:
         pass
 
